@@ -75,9 +75,32 @@ IB1 == A("integer", "9007199254740993")   DB1 == A("decimal", "9007199254740993"
 IB0 == A("integer", "9007199254740992")   EB0 == A("double", "9007199254740992")
 D01 == A("decimal", "0.1")   E01 == A("double", "0.1")
 D05 == A("decimal", "0.5")   E05 == A("double", "0.5")   F05 == A("float", "0.5")
-Hole == A("var", "x")      \* the variable $x in a constructor template (Batch)
-KeysX == {IB1, DB1, IB0, EB0, D01, E01, D05, E05, F05, I1, E1}
 DT == A("date", "2020-01-01")  QA == A("QName", "a")
+Hole == A("var", "x")      \* the variable $x in a constructor template (Batch)
+(* KEYS WITH SEVERAL LEXICAL FORMS: x is the form AS WRITTEN (the binding renders exactly it); the value
+   is named by ValueName below.  For every atomic type: two spellings of one value (the same key), a
+   different value, and the traps: values of DIFFERENT types that look equal but are not the same key. *)
+HXl == A("hexBinary", "0a1b")    HXu == A("hexBinary", "0A1B")    HXo == A("hexBinary", "0A1C")
+HX3 == A("hexBinary", "616263")                                  \* the octets 'abc' ...
+B6a == A("base64Binary", "YWJj") B6s == A("base64Binary", "YW Jj") B6o == A("base64Binary", "YWJk")   \* ... and 'abc' again
+D100 == A("decimal", "1.00")
+TMz == A("dateTime", "2020-01-01T12:00:00Z")  TMp == A("dateTime", "2020-01-01T13:00:00+01:00")   \* one instant
+TMn == A("dateTime", "2020-01-01T12:00:00")                      \* no timezone: never the same key as one with
+DD1 == A("dayTimeDuration", "P1D")   DD24 == A("dayTimeDuration", "PT24H")   DU1 == A("duration", "P1D")
+YM1 == A("yearMonthDuration", "P1Y") YM12 == A("yearMonthDuration", "P12M")
+QP  == A("QName", "{u}p:a")      QQ == A("QName", "{u}q:a")      \* fn:QName('u', 'p:a'), fn:QName('u', 'q:a')
+B1s == A("boolean", "1")         B0s == A("boolean", "0")        \* xs:boolean('1'), xs:boolean('0')
+NFC == A("string", "e-acute-nfc") NFD == A("string", "e-acute-nfd")   \* U+00E9 / U+0065 U+0301: different strings
+GY  == A("gYear", "2020")        GYz == A("gYear", "2020Z")      GYp == A("gYear", "2020+00:00")
+KeysL == {HXl, HXu, HXo, HX3, B6a, B6s, B6o, I1, D1, D100, E1, TMz, TMp, TMn, DD1, DD24, DU1, YM1, YM12,
+          QP, QQ, QA, BT, B1s, SA, UA, TA, NFC, NFD, GY, GYz, GYp}
+(* THE "FALSY" VALUE OF EVERY TYPE (zero, minus zero, empty string, false, empty binary, zero duration) *)
+D0  == A("decimal", "0")   E0 == A("double", "0")   EM0 == A("double", "-0")   F0 == A("float", "0")   FM0 == A("float", "-0")
+S0  == A("string", "")     U0 == A("anyURI", "")    T0 == A("untypedAtomic", "")
+HX0 == A("hexBinary", "")  B60 == A("base64Binary", "")
+DD0 == A("dayTimeDuration", "PT0S")   YM0 == A("yearMonthDuration", "P0M")
+KeysZ == {I0, D0, E0, EM0, F0, FM0, S0, U0, T0, BF, B0s, HX0, B60, DD0, YM0}
+KeysX == {IB1, DB1, IB0, EB0, D01, E01, D05, E05, F05, I1, E1}
 
 Keys13 == {I1, D1, E1, F1, SA, UA, TA, EN, FN, EI, BT, DT, QA}     \* the alphabet named by the property
 KeysExt == Keys13 \cup {I0, BF, FI, I2, SB}
@@ -100,7 +123,8 @@ Bool(b) == IF b THEN BT ELSE BF
    numeral that is not a binary fraction holds the nearest binary fraction of ITS precision, which
    is a third value.  (The engine cross-checks this table against python fractions.) *)
 NonBinaryNumerals == {"0.1"}
-ExactName(k) == IF k.x \in NonBinaryNumerals /\ k.a \in {"double", "float"} THEN k.a \o ":" \o k.x ELSE k.x
+ExactName(k) == IF k.x \in NonBinaryNumerals /\ k.a \in {"double", "float"} THEN k.a \o ":" \o k.x
+                ELSE CASE k.x = "1.00" -> "1" [] k.x = "-0" -> "0" [] OTHER -> k.x     \* -0 and +0 are one key
 NumVal(k) == IF k.x = "NaN" THEN [c |-> "nan", n |-> ""]
              ELSE IF k.x = "INF" THEN [c |-> "inf", n |-> ""]
              ELSE [c |-> "fin", n |-> ExactName(k)]
@@ -112,10 +136,27 @@ NumVal(k) == IF k.x = "NaN" THEN [c |-> "nan", n |-> ""]
 (*  - otherwise fn:deep-equal: same (comparable) type and equal; values of types that  *)
 (*    are not comparable with eq (boolean vs integer, QName vs string, ...) are        *)
 (*    different keys                                                                   *)
-SameKey(k1, k2) ==
-  IF IsStringLike(k1) /\ IsStringLike(k2) THEN k1.x = k2.x
-  ELSE IF IsNumeric(k1) /\ IsNumeric(k2) THEN NumVal(k1) = NumVal(k2)
-  ELSE k1.a = k2.a /\ k1.x = k2.x
+(*  - date/time types: BOTH have a timezone or NEITHER has, and fn:deep-equal (same instant)      *)
+(*  - durations: xs:duration and its two subtypes are comparable with eq: same months and seconds  *)
+(*  - xs:hexBinary / xs:base64Binary: same type and same octets (the two types are not comparable) *)
+(*  - xs:QName: same namespace URI and local name (the prefix does not matter); xs:boolean: same value *)
+(* Family = the set of keys a key can be the same key as; ValueName = the value, named canonically. *)
+IsDuration(k) == k.a \in {"duration", "dayTimeDuration", "yearMonthDuration"}
+IsDateTime(k) == k.a \in {"dateTime", "date", "gYear"}
+HasTimezone(k) == k.x \in {"2020-01-01T12:00:00Z", "2020-01-01T13:00:00+01:00", "2020Z", "2020+00:00"}
+Family(k) == IF IsStringLike(k) THEN "string" ELSE IF IsNumeric(k) THEN "numeric"
+             ELSE IF IsDuration(k) THEN "duration"
+             ELSE IF IsDateTime(k) THEN k.a \o (IF HasTimezone(k) THEN "+tz" ELSE "-tz")
+             ELSE k.a
+CanonLex(x) == CASE x = "0a1b" -> "0A1B" [] x = "YW Jj" -> "YWJj"
+                 [] x = "2020-01-01T13:00:00+01:00" -> "2020-01-01T12:00:00Z"
+                 [] x = "PT24H" -> "P1D" [] x = "P12M" -> "P1Y" [] x = "P0M" -> "PT0S"
+                 [] x = "{u}p:a" -> "{u}a" [] x = "{u}q:a" -> "{u}a"
+                 [] x = "1" -> "true" [] x = "0" -> "false"                   \* xs:boolean('1') (non-numeric only)
+                 [] x = "2020+00:00" -> "2020Z"
+                 [] OTHER -> x
+ValueName(k) == IF IsNumeric(k) THEN NumVal(k) ELSE [c |-> "lex", n |-> CanonLex(k.x)]
+SameKey(k1, k2) == Family(k1) = Family(k2) /\ ValueName(k1) = ValueName(k2)
 
 (* fn:deep-equal on atoms: ($a eq $b) or both NaN; eq promotes untypedAtomic and anyURI to
    string and numerics to a common type.  For the numerics that occur as VALUES (1, 2, counts, NaN, INF)
@@ -182,7 +223,7 @@ MergeResults(ms, policy) ==
   THEN {IF HasDupKeys(AllEntries(ms)) THEN Err("FOJS0003") ELSE Val(<<Mp(AllEntries(ms))>>)}
   ELSE {Val(<<Mp(es)>>) : es \in MergeSet(<<>>, AllEntries(ms), IF policy = "default" THEN "use-first" ELSE policy)}
 AllPolicies == {"default", "use-first", "use-last", "use-any", "combine", "reject"}
-Policies == IF Lite THEN {"default", "use-last", "combine", "reject"} ELSE AllPolicies
+Policies == IF Lite \/ Profile = "mergel" THEN {"default", "use-last", "combine", "reject"} ELSE AllPolicies
 
 (* map:find: the input sequence and all contained maps and arrays are searched; for a map the
    value of the matching entry comes first, then the matches inside the entry values *)
@@ -330,6 +371,8 @@ Keys7 == {I1, D1, SA, TA, EN, FN, BT}     \* one or two representatives of every
    "deq"      fn:deep-equal on all pairs of a universe of values
    "mixed" / "mixed1"  a map and an array together (values extracted from one another, nested containers)
    "keysx" / "mergex"  the same with the keys of KeysX (exact comparison of numeric keys across types)
+   "keysl" / "mergel"  keys with several lexical forms and the falsy value of every type (KeysL, KeysZ)
+   "lookupseq" the lookup operator with a SEQUENCE of maps / arrays on the left, every key specifier form
    "batch"    functions and lookups applied directly to constructor expressions, once per binding of $x
    "selftest" the in-place variant (InPlace = TRUE) that TLC must reject
    Lite = TRUE shrinks the parameter sets for histories of length 2 and 3. *)
@@ -352,6 +395,21 @@ DeqUniverse ==
    <<M1(IB1, V1)>>, <<M1(EB0, V1)>>, <<M1(IB0, V1)>>, <<M1(D01, V1)>>, <<M1(E01, V1)>>, <<M1(D05, V1)>>, <<M1(E05, V1)>>,
    <<M0, I1>>, <<M0, I2>>, <<EmptyArr, I1>>, <<EmptyArr, I2>>, <<I1, M0>>, <<NestedMap, NestedMap>>}
 
+(* "keysl" / "mergel": the keys of KeysL and KeysZ.  To keep the matrix small a parameter key is combined
+   with a map only if it is RELATED to one of its keys (same group of types) or is one of two controls. *)
+KeysLZ == KeysL \cup KeysZ
+Group(k) == IF IsStringLike(k) THEN "string" ELSE IF IsNumeric(k) THEN "numeric" ELSE IF IsDuration(k) THEN "duration"
+            ELSE IF k.a \in {"hexBinary", "base64Binary"} THEN "binary" ELSE k.a
+RelatedKeys(k1, k2) == Group(k1) = Group(k2) \/ k2 \in {SB, I2}
+RelatedToMap(m, k) == Profile \notin {"keysl", "mergel"} \/ \E i \in 1..Len(m.m) : RelatedKeys(m.m[i].k, k)
+
+S3(i1, i2, i3) == <<[v |-> <<i1>>], [v |-> <<i2>>], [v |-> <<i3>>]>>
+LookupSeqSeeds ==
+  {S3([r |-> <<<<I1>>, <<I2>>>>], [r |-> <<<<I3>>, <<I3, I1>>>>], [r |-> <<<<I2>>>>]),                     \* [1,2] [3,(3,1)] [2]
+   S3([m |-> <<[k |-> SA, v |-> <<I1>>], [k |-> I1, v |-> <<I2>>]>>], [m |-> <<[k |-> SA, v |-> <<I2, I3>>]>>], [m |-> <<>>]),
+   S3([m |-> <<[k |-> I1, v |-> <<SA>>], [k |-> I2, v |-> <<>>]>>], [r |-> <<<<I1>>, <<I2>>>>], [r |-> <<<<SA>>, <<>>, <<I3>>>>]),
+   S3([r |-> <<<<I1>>, <<I2>>, <<I3>>>>], [m |-> <<[k |-> I2, v |-> <<I1, I1>>]>>], [r |-> <<>>])}
+
 Seeds ==
   CASE Profile = "keys"     -> {S1(M0)} \cup {S1(M1(k, V1)) : k \in KeysExt}
     [] Profile = "keys13"   -> {S1(M0)} \cup {S1(M1(k, V1)) : k \in Keys13}
@@ -359,6 +417,9 @@ Seeds ==
     [] Profile = "keysx"    -> {S1(M1(k, V1)) : k \in KeysX} \cup {S1(M2(IB1, V1, I2, V2)), S1(M2(D01, V1, EB0, V2))}
     [] Profile = "mergex"   -> {S2(M1(k1, V1), M1(k2, V2)) : k1, k2 \in KeysX}
     [] Profile = "batch"    -> {<<>>}
+    [] Profile = "keysl"    -> {S1(M1(k, V1)) : k \in KeysLZ}
+    [] Profile = "mergel"   -> {S2(M1(pr[1], V1), M1(pr[2], V2)) : pr \in {x \in KeysLZ \X KeysLZ : RelatedKeys(x[1], x[2])}}
+    [] Profile = "lookupseq" -> LookupSeqSeeds
     [] Profile = "merge"    -> {S2(M1(k1, V1), M1(k2, V2)) : k1, k2 \in KeysExt}
     [] Profile = "merge13"  -> {S2(M1(k1, V1), M1(k2, V2)) : k1, k2 \in Keys13}
     [] Profile = "mapvals"  -> {S1(mm) : mm \in MapSeedsVals}
@@ -367,12 +428,13 @@ Seeds ==
     [] Profile = "arrays2"  -> {S1(Ar(<<V1>>)), S1(Ar(<<VE, VA>>))}
     [] Profile = "cons"     -> {<<>>}
     [] Profile = "deq"      -> {<<Val(u), Val(w)>> : u, w \in DeqUniverse}
-    [] Profile = "mixed"    -> {S2(M2(I1, V1, SA, VA), Ar(<<V1, VM>>)), S2(M1(EN, V12), Ar(<<VE, V12, VA>>))}
-                               \cup (IF Lite THEN {} ELSE {S2(M2(D1, VM, TA, VE), EmptyArr)})
+    [] Profile = "mixed"    -> {S2(M2(I1, V1, EN, VA), Ar(<<V1, VM, V12>>))}
+                               \cup (IF Lite /\ ObsTerminal THEN {}
+                                     ELSE {S2(M1(EN, V12), Ar(<<VE, V12, VA>>)), S2(M2(D1, VM, TA, VE), EmptyArr)})
     [] Profile = "mixed1"   -> {S2(M1(I1, VA), Ar(<<V1, VM>>))}
     [] Profile = "selftest" -> {S1(Ar(<<V1, V2>>))}
-NSeed == CASE Profile \in {"merge", "merge13", "mergex", "deq", "mixed", "mixed1"} -> 2
-           [] Profile \in {"cons", "batch"} -> 0 [] OTHER -> 1
+NSeed == CASE Profile \in {"merge", "merge13", "mergex", "mergel", "deq", "mixed", "mixed1"} -> 2
+           [] Profile \in {"cons", "batch"} -> 0 [] Profile = "lookupseq" -> 3 [] OTHER -> 1
 
 MapActs == {"MapPut", "MapRemove", "MapGet", "MapContains", "MapSize", "MapKeys", "MapFind", "MapForEach",
             "MapMerge", "MapEntry", "Lookup", "DeepEqual"}
@@ -380,8 +442,11 @@ ArrActs == {"ArrGet", "ArrPut", "ArrAppend", "ArrSubarray", "ArrRemove", "ArrIns
             "ArrReverse", "ArrJoin", "ArrFlatten", "ArrForEach", "ArrFilter", "ArrFold", "ArrSize", "Lookup", "DeepEqual"}
 Acts ==
   CASE Profile \in {"keys", "keys13", "keys7", "keysx"} -> {"MapPut", "MapRemove", "MapGet", "MapContains", "MapSize", "MapKeys", "MapFind", "Lookup"}
-    [] Profile \in {"merge", "merge13", "mergex"} -> {"MapMerge", "DeepEqual"}
+    [] Profile \in {"merge", "merge13", "mergex", "mergel"} -> {"MapMerge", "DeepEqual"}
     [] Profile = "batch"    -> {"Batch"}
+    [] Profile = "keysl"    -> {"MapPut", "MapRemove", "MapGet", "MapContains", "MapSize", "MapKeys", "MapFind", "Lookup",
+                                "MapEntry", "MapForEach"}
+    [] Profile = "lookupseq" -> {"LookupSeq"}
     [] Profile = "mapvals"  -> MapActs
     [] Profile \in {"arrays", "arrays3", "arrays2"} -> ArrActs
     [] Profile = "cons"     -> {"MapCons", "ArrCons"}
@@ -391,16 +456,17 @@ Acts ==
 On(name) == name \in Acts
 
 PKeys == CASE Profile = "keys" -> KeysExt [] Profile = "keys13" -> Keys13 [] Profile = "keys7" -> Keys7
-           [] Profile = "keysx" -> KeysX
+           [] Profile = "keysx" -> KeysX [] Profile = "keysl" -> KeysLZ
            [] Profile = "mixed" -> (IF Lite THEN {I1, D1, EN} ELSE {I1, D1, SA, EN})
            [] Profile = "mixed1" -> {I1, D1} [] OTHER -> SmallKeys
-PVals == CASE Profile \in {"keys", "keys13", "keys7", "keysx"} -> {V2}
+PVals == CASE Profile \in {"keys", "keys13", "keys7", "keysx", "keysl"} -> {V2}
            [] Profile = "selftest" -> {V12}
            [] Profile = "mixed1" -> {VA}
            [] Lite -> {V2, VA}
            [] Profile = "mixed" -> {V2, VE, V12, VA}
            [] OTHER -> Vals6
 RemoveSeqs == {<<k>> : k \in PKeys} \cup
+              (IF Profile = "keysl" THEN {<<k, SB>> : k \in PKeys} \cup {<<SB, k>> : k \in KeysZ} ELSE {}) \cup
               (IF Profile \in {"mapvals", "mixed"} /\ ~Lite THEN {<<>>, <<I1, SA>>, <<D1, EN>>, <<SA, SA>>} ELSE {})
 PIdx == CASE Profile = "mixed1" -> 0..2 [] Lite \/ Profile = "mixed" -> 0..3 [] OTHER -> Neg1..4
 PLen == IF Lite THEN {Neg1, 1} ELSE Neg1..3
@@ -412,6 +478,8 @@ LookupSpecs == IF Lite THEN {<<"name", "a">>, <<"int", 0>>, <<"int", 1>>, <<"int
 ConsKeys == KeysExt
 ConsEntrySeqs ==
   {<<E(k1, V1), E(k2, V2)>> : k1, k2 \in KeysX} \cup
+  {<<E(pr[1], V1), E(pr[2], V2)>> : pr \in {x \in KeysLZ \X KeysLZ : Group(x[1]) = Group(x[2])}} \cup
+  {<<E(SB, V2), E(k, V1)>> : k \in KeysLZ} \cup
   {<<>>} \cup {<<E(k, V1)>> : k \in ConsKeys} \cup {<<E(k1, V1), E(k2, V2)>> : k1, k2 \in ConsKeys}
   \cup {<<E(k1, V1), E(k2, VE), E(k3, V12)>> : k1 \in {I1, SA, EN}, k2 \in Keys13, k3 \in {D1, UA, FN, BT, I2}}
 ConsMemberSeqs ==
@@ -473,15 +541,15 @@ OpResult(act, it, p) ==
     [] act = "Lookup"       -> LookupItem(it, p[1])
 
 MapConsA(ents)     == On("MapCons") /\ Do(MapCons(ents))
-MapPut(h, k, v)    == On("MapPut") /\ h \in MapHs /\ Do(OpResult("MapPut", MV(h), <<k, v>>))
-MapRemove(h, ks)   == On("MapRemove") /\ h \in MapHs /\ Do(OpResult("MapRemove", MV(h), <<ks>>))
-MapGet(h, k)       == On("MapGet") /\ h \in MapHs /\ Do(OpResult("MapGet", MV(h), <<k>>))
-MapContains(h, k)  == On("MapContains") /\ h \in MapHs /\ Do(OpResult("MapContains", MV(h), <<k>>))
+MapPut(h, k, v)    == On("MapPut") /\ h \in MapHs /\ RelatedToMap(MV(h), k) /\ Do(OpResult("MapPut", MV(h), <<k, v>>))
+MapRemove(h, ks)   == On("MapRemove") /\ h \in MapHs /\ (\A j \in 1..Len(ks) : RelatedToMap(MV(h), ks[j])) /\ Do(OpResult("MapRemove", MV(h), <<ks>>))
+MapGet(h, k)       == On("MapGet") /\ h \in MapHs /\ RelatedToMap(MV(h), k) /\ Do(OpResult("MapGet", MV(h), <<k>>))
+MapContains(h, k)  == On("MapContains") /\ h \in MapHs /\ RelatedToMap(MV(h), k) /\ Do(OpResult("MapContains", MV(h), <<k>>))
 MapSize(h)         == On("MapSize") /\ h \in MapHs /\ Do(OpResult("MapSize", MV(h), <<>>))
 MapKeys(h)         == On("MapKeys") /\ h \in MapHs /\ Do(OpResult("MapKeys", MV(h), <<>>))
-MapEntry(k, v)     == On("MapEntry") /\ Do(Val(<<M1(k, v)>>))
+MapEntry(k, v)     == On("MapEntry") /\ (Profile = "keysl" => store[1].v[1].m[1].k = k) /\ Do(Val(<<M1(k, v)>>))
 MapForEachA(h, f)  == On("MapForEach") /\ h \in MapHs /\ Do(OpResult("MapForEachA", MV(h), <<f>>))
-MapFind(h, k)      == On("MapFind") /\ h \in MapHs /\ Do(OpResult("MapFind", MV(h), <<k>>))
+MapFind(h, k)      == On("MapFind") /\ h \in MapHs /\ RelatedToMap(MV(h), k) /\ Do(OpResult("MapFind", MV(h), <<k>>))
 MapMerge(hs, p)    == On("MapMerge") /\ (\A i \in 1..Len(hs) : hs[i] \in MapHs) /\ \E res \in MergeResults([i \in 1..Len(hs) |-> MV(hs[i])], p) : Do(res)
 
 ArrConsSquare(ms)  == On("ArrCons") /\ Do(ArrSquare(ms))
@@ -503,8 +571,25 @@ ArrFilter(h, p)    == On("ArrFilter") /\ h \in ArrHs /\ Do(OpResult("ArrFilter",
 ArrFold(h, f)      == On("ArrFold") /\ h \in ArrHs /\ Do(OpResult("ArrFold", MV(h), <<f>>))
 ArrSize(h)         == On("ArrSize") /\ h \in ArrHs /\ Do(OpResult("ArrSize", MV(h), <<>>))
 
-Lookup(h, ks)      == On("Lookup") /\ h \in MapHs \cup ArrHs /\ Do(OpResult("Lookup", MV(h), <<ks>>))
+Lookup(h, ks)      == On("Lookup") /\ h \in MapHs \cup ArrHs /\ (ks[1] = "paren" /\ h \in MapHs => RelatedToMap(MV(h), ks[2])) /\ Do(OpResult("Lookup", MV(h), <<ks>>))
 
+(* LOOKUP ON A SEQUENCE: E?KeySpecifier with several maps / arrays on the left (XPath 3.1 3.11.3.2:
+   "for $m in E return for $k in KS return $m($k)"): the concatenation over the ITEMS, then over the KEYS.
+   <<"parens", <<k1, k2>>>> is the parenthesized key specifier with a sequence of 0, 1, 2 keys. *)
+SpecKeys(ks) == IF ks[1] = "parens" THEN [i \in 1..Len(ks[2]) |-> <<"paren", ks[2][i]>>] ELSE <<ks>>
+LookupSeqResult(items, ks) ==
+  LET kk == SpecKeys(ks)
+      rs == Concat([i \in 1..Len(items) |-> [j \in 1..Len(kk) |-> LookupItem(items[i], kk[j])]])
+      bad == {i \in 1..Len(rs) : IsErr(rs[i])} IN
+  IF bad # {} THEN rs[CHOOSE i \in bad : \A j \in bad : i <= j]
+  ELSE IF \E i \in 1..Len(rs) : "bag" \in DOMAIN rs[i] THEN Bag(Concat([i \in 1..Len(rs) |-> rs[i].v]))
+  ELSE Val(Concat([i \in 1..Len(rs) |-> rs[i].v]))
+LookupSeq(hs, ks) == On("LookupSeq") /\ (\A i \in 1..Len(hs) : hs[i] \in MapHs \cup ArrHs)
+                     /\ Do(LookupSeqResult([i \in 1..Len(hs) |-> MV(hs[i])], ks))
+LookupSeqHs == {<<1, 2>>, <<2, 1>>, <<1, 2, 3>>, <<3, 1>>, <<2, 2>>, <<3>>}
+LookupSeqSpecs == {<<"name", "a">>, <<"int", 1>>, <<"int", 2>>, <<"star">>, <<"paren", SA>>, <<"paren", I1>>, <<"paren", I2>>,
+                   <<"parens", <<>>>>, <<"parens", <<I1>>>>, <<"parens", <<I1, I2>>>>, <<"parens", <<I2, I1>>>>,
+                   <<"parens", <<SA, I1>>>>, <<"parens", <<I2, I2>>>>}
 (* BATCH: a function / lookup applied DIRECTLY TO A CONSTRUCTOR EXPRESSION whose entries depend on the
    dynamic context, evaluated once per binding of $x:   for $x in xs return OP( map{'a': $x} )
    The value of a constructor is a function of the current binding only (the expression has no
@@ -529,10 +614,11 @@ DeepEqual(h1, h2)  == On("DeepEqual") /\ h1 \in ValHs /\ h2 \in ValHs /\ Do(Val(
    its parameters); the guards h \in MapHs / ArrHs select the live handles of the right kind *)
 MaxH == NSeed + Depth
 Handles == 1..MaxH
-HSeqs == IF Profile \in {"merge", "merge13", "mergex"} THEN {<<1, 2>>, <<2, 1>>}
+HSeqs == IF Profile \in {"merge13", "mergex", "mergel"} THEN {<<1, 2>>}       \* the seeds are ORDERED pairs already
+         ELSE IF Profile = "merge" THEN {<<1, 2>>, <<2, 1>>}
          ELSE {<<h>> : h \in Handles} \cup {<<h1, h2>> : h1, h2 \in Handles}
               \cup (IF Profile = "mapvals" THEN {<<h, g, h>> : h, g \in 1..2} ELSE {})
-DeqPairs == IF Profile \in {"merge", "merge13", "mergex", "deq"} THEN {<<1, 2>>} ELSE Handles \X Handles
+DeqPairs == IF Profile \in {"merge", "merge13", "mergex", "mergel", "deq"} THEN {<<1, 2>>} ELSE Handles \X Handles
 
 Next ==
      \/ \E ents \in ConsEntrySeqs : MapConsA(ents)
@@ -566,6 +652,7 @@ Next ==
      \/ \E h \in Handles : ArrSize(h)
      \/ \E h \in Handles, ks \in LookupSpecs : Lookup(h, ks)
      \/ \E pr \in DeqPairs : DeepEqual(pr[1], pr[2])
+     \/ \E hs \in LookupSeqHs, ks \in LookupSeqSpecs : LookupSeq(hs, ks)
      \/ \E t \in MapTmpls \cup ArrTmpls, ks \in BLookups, xs \in BatchXs : Batch("Lookup", t, <<ks>>, xs)
      \/ \E a \in {"MapGet", "MapContains", "MapFind"}, t \in MapTmpls, k \in BKeys, xs \in BatchXs : Batch(a, t, <<k>>, xs)
      \/ \E t \in MapTmpls, k \in BKeys, xs \in BatchXs : Batch("MapRemove", t, <<<<k>>>>, xs)
@@ -603,27 +690,30 @@ WellFormedV(val) == \A i \in 1..Len(val) :
 WellFormed == \A h \in DOMAIN store : IsErr(store[h]) \/ WellFormedV(store[h].v)
 
 MapEq(m1, m2) == ItemEq(m1, m2)
-LawKeys == KeysExt \cup PKeys
+(* the laws quantify over the parameter keys that the actions combine with the map (for "keysl" / "mergel":
+   the related keys) and over a set of probe keys *)
+LawP(m) == IF Profile \in {"keysl", "mergel"} THEN {k \in KeysLZ : RelatedToMap(m, k)} ELSE PKeys
+LawK(m) == IF Profile \in {"keysl", "mergel"} THEN LawP(m) ELSE KeysExt \cup PKeys
 LawsOfMap(m) ==
   /\ Len(KeysOf(m)) = Size(m)
-  /\ \A k \in LawKeys : HasKey(m, k) <=> Len(SelectSeq(KeysOf(m), LAMBDA kk : SameKey(kk, k))) = 1
-  /\ \A k \in LawKeys : ~HasKey(m, k) => Get(m, k) = <<>>
-  /\ \A k \in PKeys, v \in PVals :
+  /\ \A k \in LawK(m) : HasKey(m, k) <=> Len(SelectSeq(KeysOf(m), LAMBDA kk : SameKey(kk, k))) = 1
+  /\ \A k \in LawK(m) : ~HasKey(m, k) => Get(m, k) = <<>>
+  /\ \A k \in LawP(m), v \in PVals :
        LET p == Put(m, k, v) IN
        /\ Get(p, k) = v                                                   \* get(put(m,k,v),k) = v
        /\ HasKey(p, k)
-       /\ \A k2 \in LawKeys : ~SameKey(k, k2) => Get(p, k2) = Get(m, k2) /\ (HasKey(p, k2) <=> HasKey(m, k2))
-       /\ \A k2 \in LawKeys : SameKey(k, k2) => Get(p, k2) = v            \* key identity across types
+       /\ \A k2 \in LawK(m) : ~SameKey(k, k2) => Get(p, k2) = Get(m, k2) /\ (HasKey(p, k2) <=> HasKey(m, k2))
+       /\ \A k2 \in LawK(m) : SameKey(k, k2) => Get(p, k2) = v            \* key identity across types
        /\ Size(p) = Size(m) + (IF HasKey(m, k) THEN 0 ELSE 1)            \* size arithmetic
        /\ ~HasDupKeys(p.m)
        /\ MapEq(Put(p, k, v), p)                                          \* idempotent
        /\ MapEq(RemoveKeys(p, <<k>>), RemoveKeys(m, <<k>>))
        /\ MapEq(p, CHOOSE r \in {x.v[1] : x \in MergeResults(<<m, M1(k, v)>>, "use-last")} : TRUE)
-  /\ \A k \in PKeys :
+  /\ \A k \in LawP(m) :
        LET r == RemoveKeys(m, <<k>>) IN
        /\ ~HasKey(r, k)                                                   \* remove then contains = false
-       /\ \A k2 \in LawKeys : SameKey(k, k2) => ~HasKey(r, k2)
-       /\ \A k2 \in LawKeys : ~SameKey(k, k2) => Get(r, k2) = Get(m, k2) /\ (HasKey(r, k2) <=> HasKey(m, k2))
+       /\ \A k2 \in LawK(m) : SameKey(k, k2) => ~HasKey(r, k2)
+       /\ \A k2 \in LawK(m) : ~SameKey(k, k2) => Get(r, k2) = Get(m, k2) /\ (HasKey(r, k2) <=> HasKey(m, k2))
        /\ Size(r) = Size(m) - (IF HasKey(m, k) THEN 1 ELSE 0)
        /\ (~HasKey(m, k) => r = m)
   /\ RemoveKeys(m, <<>>) = m
@@ -642,9 +732,9 @@ LawsOfMapPair(m1, m2) ==
   /\ \A p \in AllPolicies \ {"reject"} : \A x \in MergeResults(<<m1, m2>>, p) :
        LET r == x.v[1] IN
        /\ ~HasDupKeys(r.m)
-       /\ \A k \in LawKeys : HasKey(r, k) <=> (HasKey(m1, k) \/ HasKey(m2, k))
+       /\ \A k \in (LawK(m1) \cup LawK(m2)) : HasKey(r, k) <=> (HasKey(m1, k) \/ HasKey(m2, k))
        /\ Size(r) + Cardinality({i \in 1..Len(m1.m) : HasKey(m2, m1.m[i].k)}) = Size(m1) + Size(m2)
-       /\ \A k \in LawKeys :
+       /\ \A k \in (LawK(m1) \cup LawK(m2)) :
             CASE p \in {"default", "use-first"} -> Get(r, k) = (IF HasKey(m1, k) THEN Get(m1, k) ELSE Get(m2, k))
               [] p = "use-last" -> Get(r, k) = (IF HasKey(m2, k) THEN Get(m2, k) ELSE Get(m1, k))
               [] p = "use-any"  -> Get(r, k) \in {Get(m1, k), Get(m2, k)} /\ (HasKey(m1, k) /\ ~HasKey(m2, k) => Get(r, k) = Get(m1, k))
@@ -754,6 +844,22 @@ SameKeyLaws ==
   /\ ~SameKey(D01, E01) /\ ~SameKey(D01, D05) /\ ~SameKey(E01, E05)       \* no promotion, no rounding
   /\ SameKey(D05, E05) /\ SameKey(E05, F05) /\ SameKey(D05, F05)
   /\ Cardinality({{k2 \in KeysX : SameKey(k, k2)} : k \in KeysX}) = 6
+  /\ \A k \in KeysL \cup KeysZ : SameKey(k, k)
+  /\ \A k1, k2 \in KeysL \cup KeysZ : SameKey(k1, k2) <=> SameKey(k2, k1)
+  /\ \A k1, k2, k3 \in KeysL \cup KeysZ : (SameKey(k1, k2) /\ SameKey(k2, k3)) => SameKey(k1, k3)
+  /\ SameKey(HXl, HXu) /\ ~SameKey(HXu, HXo) /\ SameKey(B6a, B6s) /\ ~SameKey(B6a, B6o)
+  /\ ~SameKey(HX3, B6a) /\ ~SameKey(HX0, B60)                           \* same octets, types not comparable
+  /\ SameKey(D1, D100) /\ SameKey(I1, D100) /\ SameKey(E1, D100)
+  /\ SameKey(TMz, TMp) /\ ~SameKey(TMz, TMn) /\ ~SameKey(TMp, TMn)       \* timezone presence
+  /\ SameKey(DD1, DD24) /\ SameKey(DD1, DU1) /\ SameKey(YM1, YM12) /\ ~SameKey(DD1, YM1) /\ SameKey(DD0, YM0)
+  /\ SameKey(QP, QQ) /\ ~SameKey(QP, QA) /\ SameKey(BT, B1s) /\ SameKey(BF, B0s) /\ ~SameKey(B1s, I1) /\ ~SameKey(B0s, I0)
+  /\ SameKey(SA, UA) /\ SameKey(SA, TA) /\ ~SameKey(NFC, NFD)
+  /\ ~SameKey(GY, GYz) /\ SameKey(GYz, GYp)
+  /\ \A k1, k2 \in {I0, D0, E0, EM0, F0, FM0} : SameKey(k1, k2)          \* zero of every numeric type, +0 and -0
+  /\ \A k1, k2 \in {S0, U0, T0} : SameKey(k1, k2)
+  /\ ~SameKey(S0, HX0) /\ ~SameKey(BF, I0) /\ ~SameKey(DD0, I0) /\ ~SameKey(S0, I0)
+  /\ Cardinality({{k2 \in KeysL : SameKey(k, k2)} : k \in KeysL}) = 18
+  /\ Cardinality({{k2 \in KeysZ : SameKey(k, k2)} : k \in KeysZ}) = 6
 ASSUME SameKeyLaws
 ASSUME Profile = "deq" => DeqUniverseLaws     \* 51^3 triples: once, in the run that uses the universe
 
@@ -763,5 +869,5 @@ ASSUME Profile = "deq" => DeqUniverseLaws     \* 51^3 triples: once, in the run 
 Expanded == Len(store) - NSeed < Depth
 Laws == /\ WellFormed /\ DeepEqLaws
         /\ (Expanded /\ Profile # "deq") => PairLaws /\ ArrLaws
-        /\ (Expanded /\ Profile \notin {"deq", "merge", "merge13", "mergex"}) => MapLaws   \* single-entry maps: see the keys profiles
+        /\ (Expanded /\ Profile \notin {"deq", "merge", "merge13", "mergex", "mergel", "lookupseq"}) => MapLaws   \* single-entry maps: see the keys profiles
 =============================================================================
